@@ -373,6 +373,82 @@ func ruEntryPoints() []ruEP {
 			}
 			v.holdBig("Inverse", got, want)
 		}},
+		// the scalar-field functions behind the hook take the caller's scalar slices as they are
+		{"P256OrdInverse", nil, func(v *ruVars) {
+			var got []byte
+			var err error
+			if !v.c.Call("P256OrdInverse", func() { got, err = verifhook.P256OrdInverse(v.k[0]) }) {
+				return
+			}
+			d := v.scalarInt(0)
+			if len(v.mk[0]) == 32 && d.Cmp(ec.N) >= 0 && err != nil {
+				return // outside the documented domain: refusal or the inverse of the residue (see order.go)
+			}
+			if !v.verdict("P256OrdInverse", len(v.mk[0]) == 32, err == nil) {
+				return
+			}
+			want := new(big.Int) // documented: "If in is zero, out will be zero"
+			if modN(d).Sign() != 0 {
+				want.ModInverse(modN(d), ec.N)
+			}
+			if v.c.Eq(fmt.Sprintf("P256OrdInverse(%x)", v.mk[0]), got, ec.Bytes32(want)) {
+				v.holdBytes("P256OrdInverse", got)
+			}
+		}},
+		{"P256OrdMul", nil, func(v *ruVars) { v.ordMul("P256OrdMul(k0, k1)", 0, 1) }},
+		{"P256OrdMul same slice", nil, func(v *ruVars) { v.ordMul("P256OrdMul(k0, same slice)", 0, 0) }},
+		{"ImplicitSig", func(v *ruVars) bool {
+			// operands of the right length must be below n (the documented domain)
+			return len(v.mk[0]) != 32 || len(v.mk[1]) != 32 || (v.scalarInt(0).Cmp(ec.N) < 0 && v.scalarInt(1).Cmp(ec.N) < 0)
+		}, func(v *ruVars) {
+			var got []byte
+			var err error
+			if !v.c.Call("ImplicitSig", func() { got, err = verifhook.ImplicitSig(v.k[1], v.k[0], v.k[1]) }) {
+				return
+			}
+			if !v.verdict("ImplicitSig", len(v.mk[0]) == 32 && len(v.mk[1]) == 32, err == nil) {
+				return
+			}
+			s, e := v.scalarInt(1), v.scalarInt(0)
+			if v.c.Eq(fmt.Sprintf("ImplicitSig(s=%x, e=%x, t=s) = e*t+s mod n", v.mk[1], v.mk[0]), got, ec.Bytes32(modN(add(mul(e, s), s)))) {
+				v.holdBytes("ImplicitSig", got)
+			}
+		}},
+		{"point encoders", func(v *ruVars) bool { _, err := ec.Decode(v.mbuf); return err == nil }, func(v *ruVars) {
+			rp, _ := ec.Decode(v.mbuf)
+			var q *verifhook.SM2P256Point
+			var err error
+			var b, bc, bx []byte
+			var xerr error
+			if !v.c.Call("point.SetBytes + Bytes/BytesCompressed/BytesX", func() {
+				if q, err = newPt().SetBytes(v.buf); err == nil {
+					b, bc = q.Bytes(), q.BytesCompressed()
+					bx, xerr = q.BytesX()
+				}
+			}) {
+				return
+			}
+			if !v.verdict("point.SetBytes", true, err == nil && q != nil) {
+				return
+			}
+			if v.c.Eq("Bytes() of the decoded point", b, rp.Marshal()) {
+				v.holdBytes("point.Bytes()", b)
+			}
+			if v.c.Eq("BytesCompressed() of the decoded point", bc, rp.MarshalCompressed()) {
+				v.holdBytes("point.BytesCompressed()", bc)
+			}
+			switch {
+			case rp.Inf && xerr == nil:
+				v.c.Fail("accept", "BytesX of the point at infinity returned %x instead of an error", bx)
+			case !rp.Inf && xerr != nil:
+				v.c.Fail("reject", "BytesX: %v", xerr)
+			case !rp.Inf:
+				if v.c.Eq("BytesX() of the decoded point", bx, ec.Bytes32(rp.X)) {
+					v.holdBytes("point.BytesX()", bx)
+				}
+			}
+			v.holdCheck(func(when string) { eqHook(v.c, "the point decoded earlier, "+when, q, rp) })
+		}},
 		{"point.SetBytes", nil, func(v *ruVars) {
 			rp, rerr := ec.Decode(v.mbuf)
 			var q *verifhook.SM2P256Point
@@ -546,6 +622,26 @@ func ruEntryPoints() []ruEP {
 				}
 			})
 		}},
+	}
+}
+
+// ordMul: P256OrdMul on the scalar slices #i and #j (the same slice twice when i == j).
+func (v *ruVars) ordMul(what string, i, j int) {
+	var got []byte
+	var err error
+	if !v.c.Call(what, func() { got, err = verifhook.P256OrdMul(v.k[i], v.k[j]) }) {
+		return
+	}
+	a, b := v.scalarInt(i), v.scalarInt(j)
+	lenOK := len(v.mk[i]) == 32 && len(v.mk[j]) == 32
+	if lenOK && (a.Cmp(ec.N) >= 0 || b.Cmp(ec.N) >= 0) && err != nil {
+		return // outside the documented domain: refusal or the product of the residues (see order.go)
+	}
+	if !v.verdict(what, lenOK, err == nil) {
+		return
+	}
+	if v.c.Eq(fmt.Sprintf("%s = %x * %x mod n", what, v.mk[i], v.mk[j]), got, ec.Bytes32(modN(mul(a, b)))) {
+		v.holdBytes(what, got)
 	}
 }
 
